@@ -1,4 +1,179 @@
-From Coq Require Import List NArith ZArith Bool.
+(* C10 Stream lifecycle -- theorem statements only (proofs: proof/L_WireLife.v on top of proof/L_Wire.v, L_WireHttp.v).
+
+   run_pipe / run_http : M_Wire, the models C01 ties to the code (socket family / HTTP for every cap and frame size).
+   life model          : M_WireLife -- a script is a LIST OF OPERATIONS on one session (OIter k / OResume / OExch /
+                         OClose / OCancel); pstep / hstep return, per operation, the client events and the state hooks
+                         (CProcess i / CCancel i) the server ran.  hstep true = the repaired HttpStreamSession.
+   emitted sts         : the batches a producer step script emits, in order, and how it ends (finish / error).
+   Side conditions: a recording on_log callback and no EXCEPTION-level client logs (no_exc_logs; C08's subject), init
+   succeeded (ires = InitOk; failures: C01/C04), the script is legal (a declared header exists).  HTTP data path:
+   C01's premises -- an exchange response fits max_response_bytes (fits, the documented hard cap) and the first producer
+   response carries no error (first_turn_ok; PROVED here for every producer that ends by finish()). *)
+From Coq Require Import List NArith ZArith Bool String.
 From VGI Require Import Corr M_Wire L_Wire L_WireHttp M_WireLife L_WireLife.
 Import ListNotations.
 Open Scope N_scope.
+
+(* the socket client receives exactly the emitted batches, in order, and the trace ends exactly with the producer's
+   ending (EDone when it finished), nothing after it, no other ending before it -- for every step script *)
+Theorem C10_producer_exact : forall sp h,
+  ires sp = InitOk -> legal (PStream sp) (SIter h 0 AStop CbRecord) = true -> no_exc_logs (PStream sp) = true ->
+  let t := run_pipe (PStream sp) (SIter h 0 AStop CbRecord) in
+  batches_of t = fst (emitted (steps sp))
+  /\ exists pre, t = pre ++ [end_event (snd (emitted (steps sp)))] /\ filter is_end pre = [].
+Proof. exact producer_exact_pipe. Qed.
+
+(* HTTP, for every cap and frame size: the same, whenever the producer ends by finish() (or C01's first_turn_ok holds) *)
+Theorem C10_producer_exact_http : forall cfg sp h,
+  ires sp = InitOk -> legal (PStream sp) (SIter h 0 AStop CbRecord) = true -> no_exc_logs (PStream sp) = true ->
+  snd (emitted (steps sp)) = EndFinish \/ first_turn_ok cfg (PStream sp) (SIter h 0 AStop CbRecord) = true ->
+  let t := run_http cfg (PStream sp) (SIter h 0 AStop CbRecord) in
+  batches_of t = fst (emitted (steps sp)) /\ filter is_end t = [end_event (snd (emitted (steps sp)))].
+Proof. exact producer_exact_http. Qed.
+
+(* emit and finish in the same step: that batch is delivered, then the stream is over -- both transports, every cap *)
+Theorem C10_emit_and_finish_delivers : forall cfg sp h pre bs x b post,
+  ires sp = InitOk -> legal (PStream sp) (SIter h 0 AStop CbRecord) = true -> no_exc_logs (PStream sp) = true ->
+  steps sp = pre ++ x :: post -> Forall2 emits_only pre bs -> sraise x = None -> fin x = true -> emit x = Some b ->
+  let tp := run_pipe (PStream sp) (SIter h 0 AStop CbRecord) in
+  let th := run_http cfg (PStream sp) (SIter h 0 AStop CbRecord) in
+  batches_of tp = bs ++ [b] /\ filter is_end tp = [EDone] /\ batches_of th = bs ++ [b] /\ filter is_end th = [EDone].
+Proof. exact emit_and_finish_delivers. Qed.
+
+(* n inputs: one output per input, the i-th being what the i-th process() call emitted, up to the first failing call *)
+Theorem C10_exchange_one_per_input : forall cfg sp h n a,
+  ires sp = InitOk -> legal (PStream sp) (SExch h n a CbRecord) = true -> no_exc_logs (PStream sp) = true ->
+  (pipe_reads (PStream sp) (SExch h n a CbRecord) = true -> one_per_input (steps sp) n (run_pipe (PStream sp) (SExch h n a CbRecord)))
+  /\ (fits cfg (PStream sp) (SExch h n a CbRecord) = true -> one_per_input (steps sp) n (run_http cfg (PStream sp) (SExch h n a CbRecord))).
+Proof. exact exchange_one_per_input. Qed.
+
+(* finish() inside an exchange is refused by the collector, and that refusal is what the client gets for that input *)
+Theorem C10_finish_refused_in_exchange :
+  (forall x, fin x = true -> exec_step false (Some x) = SErr finish_refused)
+  /\ forall sts n t j x, one_per_input sts n t -> nth_error sts j = Some x -> fin x = true -> (j < n)%nat ->
+       (forall i, (i < j)%nat -> exists fs fl, exec_step false (nth_error sts i) = SFrames fs fl) ->
+       batches_of t = map (out_of sts) (seq 0 j) /\ filter is_end t = [err_event finish_refused].
+Proof. split; [exact finish_refused_step|exact one_per_input_finish]. Qed.
+
+(* _coerce_input_batch over any type / column domain and any cast function:
+   1 equal schema -> unchanged; 2 whatever reaches the state has the declared schema and consists of the same-named input
+   columns, as they were or cast; 3 a different field set -> rejected; 4 same field set (any order) with castable
+   columns -> accepted; 5 a rejected input never reaches process() on either transport *)
+Theorem C10_input_schema : forall (ty col : Type) (ty_eqb : ty -> ty -> bool) (cast : ty -> ty -> col -> option col),
+  (forall a b, ty_eqb a b = true <-> a = b) ->
+  forall (target : list (field ty)) (b : list (column ty col)),
+  (schema_of ty col b = target -> coerce ty col ty_eqb cast target b = CAccept b)
+  /\ (forall b', coerce ty col ty_eqb cast target b = CAccept b' ->
+        schema_of ty col b' = target /\
+        forall f v, In (f, v) b' -> exists c, In c b /\ fst (fst c) = fst f /\ (c = (f, v) \/ cast (snd f) (snd (fst c)) (snd c) = Some v))
+  /\ ((exists n, In n (names ty (schema_of ty col b)) /\ ~ In n (names ty target)) \/
+      (exists n, In n (names ty target) /\ ~ In n (names ty (schema_of ty col b))) ->
+      coerce ty col ty_eqb cast target b = CRejectType)
+  /\ (NoDup (names ty (schema_of ty col b)) -> (forall n, In n (names ty (schema_of ty col b)) <-> In n (names ty target)) ->
+      (forall c f, In c b -> In f target -> fst (fst c) = fst f -> exists v, cast (snd f) (snd (fst c)) (snd c) = Some v) ->
+      exists b', coerce ty col ty_eqb cast target b = CAccept b')
+  /\ (forall producer c e st sg st', pstep producer c (OExch (Some e)) st = (sg, st') -> snd sg = [])
+  /\ (forall cfg sts c e st sg st', hstep true cfg sts c (OExch (Some e)) st = (sg, st') -> snd sg = []).
+Proof.
+  intros ty col ty_eqb cast Heq target b.
+  split; [apply coerce_equal; exact Heq|]. split; [intros b'; apply coerce_accept; exact Heq|].
+  split; [apply coerce_diff_set; exact Heq|]. split; [apply coerce_same_set; exact Heq|].
+  split; [exact pstep_rejected|exact hstep_rejected].
+Qed.
+
+(* the client's data events are: the declared header (exactly once, only on a header method), then the batches *)
+Theorem C10_header_once_first : forall cfg sp sc,
+  ires sp = InitOk -> is_stream sc = true -> legal (PStream sp) sc = true -> records sc = true -> no_exc_logs (PStream sp) = true ->
+  (pipe_reads (PStream sp) sc = true ->
+     let t := run_pipe (PStream sp) sc in filter is_data t = hdr_events (hdr_of sc) sp ++ map EBatch (batches_of t))
+  /\ (complete sc = true -> fits cfg (PStream sp) sc = true -> first_turn_ok cfg (PStream sp) sc = true ->
+     let t := run_http cfg (PStream sp) sc in filter is_data t = hdr_events (hdr_of sc) sp ++ map EBatch (batches_of t)).
+Proof. exact header_once_first. Qed.
+
+(* socket family.  For ANY callback, any state st0 of an open session, any operations before (pre) and after (post)
+   the cancel:  the state is never processed again / on_cancel ran at most once in the whole run / cancel() reports no
+   error / every later operation is refused (no dispatch, no data, RpcError for a use) *)
+Theorem C10_after_cancel : forall producer c st0 pre post segs1 st1 sgc st2 segs2 st3,
+  p_closed st0 = false ->
+  run_ops (pstep producer c) pre st0 = (segs1, st1) -> pstep producer c OCancel st1 = (sgc, st2) ->
+  run_ops (pstep producer c) post st2 = (segs2, st3) ->
+  processes (snd sgc ++ all_calls segs2) = []
+  /\ (cancels (all_calls segs1 ++ snd sgc ++ all_calls segs2) <= 1)%nat
+  /\ errors_of (fst sgc) = []
+  /\ Forall2 refusal post segs2.
+Proof. exact after_cancel_pipe. Qed.
+
+(* HTTP, repaired client (fixed = true), every cap / program / callback *)
+Theorem C10_after_cancel_http : forall cfg sts c st0 pre post segs1 st1 sgc st2 segs2 st3,
+  hK st0 = false ->
+  run_ops (hstep true cfg sts c) pre st0 = (segs1, st1) -> hstep true cfg sts c OCancel st1 = (sgc, st2) ->
+  run_ops (hstep true cfg sts c) post st2 = (segs2, st3) ->
+  processes (snd sgc ++ all_calls segs2) = []
+  /\ (cancels (all_calls segs1 ++ snd sgc ++ all_calls segs2) <= 1)%nat
+  /\ fst sgc = []
+  /\ Forall2 refusal post segs2.
+Proof. exact after_cancel_http. Qed.
+
+(* the sessions the two clients hand out satisfy the premises above *)
+Theorem C10_sessions_start_open :
+  (forall sp h c ies st0, pipe_init sp h c = (ies, Some st0) -> p_closed st0 = false)
+  /\ (forall cfg sp h producer c ies ics st0, http_init cfg sp h producer c = (ies, ics, Some st0) -> hK st0 = false).
+Proof. split; [exact pipe_init_open|exact http_init_open]. Qed.
+
+Print Assumptions C10_producer_exact.
+Print Assumptions C10_producer_exact_http.
+Print Assumptions C10_emit_and_finish_delivers.
+Print Assumptions C10_exchange_one_per_input.
+Print Assumptions C10_finish_refused_in_exchange.
+Print Assumptions C10_input_schema.
+Print Assumptions C10_header_once_first.
+Print Assumptions C10_after_cancel.
+Print Assumptions C10_after_cancel_http.
+Print Assumptions C10_sessions_start_open.
+
+(* ---- non-vacuity *)
+Definition xb (r t : N) : batch := {| rows := r; tag := t; meta := [] |}.
+Definition xlog (l : level) (t : string) : logmsg := {| lvl := l; text := s t; extra := [] |}.
+Definition xs (b : option batch) (f : bool) : step := {| slogs := [xlog INFO "s"]; emit := b; fin := f; sraise := None |}.
+Definition xsp : stream_prog := {| ilogs := [xlog DEBUG "i"]; ires := InitOk; hdr := Some 7%Z;
+  steps := [xs (Some (xb 2 0)) false; xs (Some (xb 0 0)) false; xs (Some (xb 3 2)) true; xs (Some (xb 9 3)) false] |}.
+Definition xcfg (c : option N) : httpcfg := {| cap := c; fsize := fun _ => 100; base := 100 |}.
+
+(* a header producer: two batches, then emit+finish; the 4th step is never reached *)
+Example C10_ex_producer :
+  legal (PStream xsp) (SIter true 0%nat AStop CbRecord) = true /\ no_exc_logs (PStream xsp) = true
+  /\ emitted (steps xsp) = ([xb 2 0; xb 0 0; xb 3 2], EndFinish)
+  /\ batches_of (run_pipe (PStream xsp) (SIter true 0%nat AStop CbRecord)) = [xb 2 0; xb 0 0; xb 3 2]
+  /\ forallb (fun c => list_eqb batch_eqb (batches_of (run_http (xcfg c) (PStream xsp) (SIter true 0%nat AStop CbRecord))) [xb 2 0; xb 0 0; xb 3 2])
+       [None; Some 1; Some 450; Some 10000000] = true.
+Proof. vm_compute. repeat split; reflexivity. Qed.
+
+(* an exchange whose third call finishes: two outputs, then the refusal *)
+Example C10_ex_exchange :
+  let t := run_pipe (PStream xsp) (SExch false 4%nat AClose CbRecord) in
+  batches_of t = [xb 2 0; xb 0 0] /\ filter is_end t = [err_event finish_refused].
+Proof. vm_compute. split; reflexivity. Qed.
+
+(* life model: take one batch, cancel, then iterate / resume / exchange / cancel again -- socket and HTTP (cap None: the
+   generator is suspended inside the pre-loaded batches; cap None with 2 taken: inside a continuation response) *)
+Example C10_ex_after_cancel_pipe :
+  life_pipe xsp true true CbRecord [OIter (Some 1%nat); OCancel; OIter None; OResume; OCancel]
+  = ([ELog (xlog DEBUG "i"); EHeader 7%Z],
+     [([ELog (xlog INFO "s"); EBatch (xb 2 0)], [CProcess 0]); ([], [CCancel 1]); ([refused], []); ([EDone], []); ([], [])]).
+Proof. vm_compute. reflexivity. Qed.
+
+Example C10_ex_after_cancel_http :
+  life_http true (xcfg None) xsp true true CbRecord [OIter (Some 2%nat); OCancel; OResume; OIter None; OCancel]
+  = ([ELog (xlog DEBUG "i"); ELog (xlog INFO "s"); EHeader 7%Z], [CProcess 0],
+     [([EBatch (xb 2 0); ELog (xlog INFO "s"); EBatch (xb 0 0)], [CProcess 1]); ([], [CCancel 1]); ([refused], []); ([refused], []); ([], [])]).
+Proof. vm_compute. reflexivity. Qed.
+
+(* coercion over a toy domain: types are numbers, a cast succeeds iff the source type is smaller or equal *)
+Definition toy_cast (t s0 : N) (c : N) : option N := if s0 <=? t then Some (c + 1000 * t) else None.
+Example C10_ex_coerce :
+  let target := [(s "a", 5); (s "b", 6)] in
+  coerce N N N.eqb toy_cast target [((s "b", 6), 1); ((s "a", 3), 2)] = CAccept [((s "a", 5), 5002); ((s "b", 6), 6001)]
+  /\ coerce N N N.eqb toy_cast target [((s "b", 6), 1); ((s "a", 9), 2)] = CRejectType
+  /\ coerce N N N.eqb toy_cast target [((s "a", 5), 1); ((s "b", 6), 2); ((s "c", 1), 3)] = CRejectType
+  /\ coerce N N N.eqb toy_cast target [((s "a", 5), 1); ((s "a", 5), 1); ((s "b", 6), 2)] = CRejectKey.
+Proof. vm_compute. repeat split; reflexivity. Qed.
